@@ -8,6 +8,7 @@ import (
 	"bytes"
 	"fmt"
 	"net"
+	"os"
 	"path/filepath"
 	"regexp"
 	"strings"
@@ -482,6 +483,120 @@ func TestVF_C17(t *testing.T) {
 			labels = append(labels, fmt.Sprintf("relay_connector_late_%d", cs.RelayLate))
 		}
 		c.eval(cs, len(cs.Probes) > 0 || cs.Connector != "immediate" || cs.Junk || cs.RelayLate > 0, labels...)
+		return msg
+	})
+}
+
+// ---------------------------------------------------------------------------------
+// a transfer that went to the background (-f, over its tunnel) is still running while the next transfer starts: the earlier
+// transfer's tunnel is not the authenticated connection of the new one - neither transfer may disturb the other
+
+type vfC17OverlapCase struct {
+	Relays  int  `json:"relays"`
+	UploadA bool `json:"upload_a"` // the background transfer
+	UploadB bool `json:"upload_b"` // the one started while it runs
+}
+
+type vfC17OverlapRes struct {
+	background bool // A really went to the background
+	overlapped bool // A was still running when B had ended
+}
+
+func vfC17OverlapRun(cs vfC17OverlapCase, res *vfC17OverlapRes) string {
+	base, err := os.MkdirTemp("", "vfc17o")
+	if err != nil {
+		return "mkdtemp: " + err.Error()
+	}
+	defer os.RemoveAll(base)
+	src := filepath.Join(base, "src")
+	os.MkdirAll(src, 0755)
+	vfWriteFile(filepath.Join(src, "small.bin"), vfKindNoise, 5, 3000)
+	vfWriteFile(filepath.Join(src, "big.bin"), vfKindNoise, 6, 3<<20)
+	bigA := filepath.Join(base, "srcA", "bg.bin")
+	os.MkdirAll(filepath.Dir(bigA), 0755)
+	vfWriteFile(bigA, vfKindNoise, 7, 20<<20)
+	destA := filepath.Join(base, "destA")
+	os.MkdirAll(destA, 0755)
+	vfCurCase("TestVF_C17Overlap", cs)
+	// the client's action for the second transfer comes 300 ms late (a user choosing a directory): the relays are in their
+	// handshake for that long while the background transfer's traffic keeps flowing
+	sess := vfNewSession(vfSessOpts{Relays: cs.Relays, Tunnel: true, FirstWriteDelayMs: 300})
+	defer sess.close()
+	sess.slowFirst.done.Store(true) // not for the first transfer
+	sess.bgDelay = time.Millisecond
+	sess.tunC2S.throttle, sess.tunS2C.throttle = 2*time.Millisecond, 2*time.Millisecond
+	cfgA := vfPairCfg{Upload: cs.UploadA, Timeout: 10, Overwrite: true, Fork: true, Bufsize: 8192}
+	if _, err := vfStartTransfer(sess, cfgA, []string{bigA}, destA); err != nil {
+		return "cannot start the background transfer: " + err.Error()
+	}
+	deadline := time.Now().Add(15 * time.Second)
+	for !bytes.Contains(sess.serverRaw(), []byte("Switch to transfer in background.")) {
+		if time.Now().After(deadline) || !sess.serverAlive() {
+			return "" // no tunnel came up or the transfer was over at once: nothing went to the background
+		}
+		time.Sleep(2 * time.Millisecond)
+	}
+	if !sess.waitClientIdle(5 * time.Second) {
+		return "the server switched to the background but the client never freed the terminal"
+	}
+	res.background = true
+	hA := sess.detachServer()
+	sess.serverPortUnreachable.Store(true)
+	sess.tunC2S.throttle, sess.tunS2C.throttle = 0, 0
+	sess.slowFirst.done.Store(false)
+	time.Sleep(100 * time.Millisecond)
+	// two more transfers beside it: the first one passes a relay that still counts the background transfer as its own, its end
+	// releases the relay, and the second one gets a handshake of its own from the relay - while the background traffic flows on
+	for k := 0; k < 2; k++ {
+		sess.slowFirst.done.Store(false)
+		m := vfC05Transfer(sess, vfC05Act{Kind: "transfer", Outcome: "succeeded", Upload: cs.UploadB != (k == 1)}, src, base)
+		still := false
+		select {
+		case <-hA.done:
+		default:
+			still = true
+		}
+		if k == 1 {
+			res.overlapped = still
+		}
+		if m != "" {
+			return fmt.Sprintf("transfer %d started while an earlier one was running in the background (still running afterwards: %v): %s", k+1, still, m)
+		}
+	}
+	if !hA.wait(90 * time.Second) {
+		return "the background transfer never ended after another transfer had run beside it"
+	}
+	got, err := os.ReadFile(filepath.Join(destA, "bg.bin"))
+	want, _ := os.ReadFile(bigA)
+	if err != nil || !bytes.Equal(got, want) {
+		return fmt.Sprintf("the background transfer's file is not identical after another transfer had run beside it (%v, %d of %d bytes, first difference at %d); its output: %s",
+			err, len(got), len(want), vfLCP(got, want), vfShort(hA.output(), 300))
+	}
+	return ""
+}
+
+func TestVF_C17Overlap(t *testing.T) {
+	c := vfNewCollector("C17", "TestVF_C17Overlap")
+	vfCheck(t, c, func(rt *rapid.T) vfC17OverlapCase {
+		return vfC17OverlapCase{Relays: rapid.SampledFrom([]int{0, 1, 1, 2}).Draw(rt, "relays"), UploadA: rapid.Bool().Draw(rt, "upload_a"), UploadB: rapid.Bool().Draw(rt, "upload_b")}
+	}, func(cs vfC17OverlapCase) string {
+		var res vfC17OverlapRes
+		msg := vfC17OverlapRun(cs, &res)
+		if msg != "" {
+			var r2 vfC17OverlapRes
+			if m2 := vfC17OverlapRun(cs, &r2); m2 == "" { // real processes and timeouts: a verdict must reproduce
+				c.inconclusive("not_reproduced")
+				msg = ""
+			}
+		}
+		labels := []string{"background_transfer_beside_another", fmt.Sprintf("relay_hops_%d", cs.Relays)}
+		if res.background {
+			labels = append(labels, "went_to_background")
+		}
+		if res.overlapped {
+			labels = append(labels, "still_running_when_the_second_ended")
+		}
+		c.eval(cs, res.overlapped, labels...)
 		return msg
 	})
 }
